@@ -10,6 +10,8 @@ double call_d_d(double (*cb)(double), double x);
 int call_i_iii(int (*cb)(int, int, int), int x, int y, int z);
 void call_v_p(void (*cb)(int *), int *p);
 short call_h_c(short (*cb)(char), char c);
+typedef struct { signed char a; short b; } spt_t;
+int call_s_i(spt_t (*cb)(int), int x);
 """
 SRC = """
 int call_i_i(int (*cb)(int), int x) { return cb(x); }
@@ -18,10 +20,13 @@ double call_d_d(double (*cb)(double), double x) { return cb(x); }
 int call_i_iii(int (*cb)(int, int, int), int x, int y, int z) { return cb(x, y, z); }
 void call_v_p(void (*cb)(int *), int *p) { cb(p); }
 short call_h_c(short (*cb)(char), char c) { return cb(c); }
+typedef struct { signed char a; short b; } spt_t;
+int call_s_i(spt_t (*cb)(int), int x) { spt_t r = cb(x); return r.a * 100000 + r.b; }
 """
 SIGS = {
     'i_i': 'int(*)(int)', 'l_ll': 'long(*)(long, long)', 'd_d': 'double(*)(double)',
     'i_iii': 'int(*)(int, int, int)', 'v_p': 'void(*)(int *)', 'h_c': 'short(*)(char)',
+    's_i': 'spt_t(*)(int)',
 }
 SIGNAMES = sorted(SIGS)
 VARIADIC = 'int(*)(int, ...)'
@@ -61,7 +66,7 @@ class Run(object):
     def expected(self, e, args):
         s = e.serial
         if e.raises:
-            return {'i_i': -7, 'l_ll': -7, 'd_d': -7.0, 'i_iii': -7, 'h_c': -7}.get(e.sig)
+            return {'i_i': -7, 'l_ll': -7, 'd_d': -7.0, 'i_iii': -7, 'h_c': -7, 's_i': (0, 0)}.get(e.sig)
         if e.sig == 'i_i':
             return (s * 31 + args[0]) % 1000003
         if e.sig == 'l_ll':
@@ -72,6 +77,8 @@ class Run(object):
             return (s + args[0] + 2 * args[1] + 3 * args[2]) % 1000003
         if e.sig == 'h_c':
             return (s + ord(args[0])) % 30000
+        if e.sig == 's_i':
+            return ((s + args[0]) % 100, (s * 7 + args[0]) % 30000)
         return None
 
     def make_fn(self, e):
@@ -107,9 +114,11 @@ class Run(object):
         e.sig = sig
         e.raises = raises and sig != 'v_p'
         fn = self.make_fn(e)
+        if sig == 's_i':
+            flavour = 'module'        # struct types are per-FFI: the callback type must be the module's
         ffi = self.mffi if flavour == 'module' else self.iffi
         kw = {}
-        if e.raises:
+        if e.raises and sig != 's_i':
             kw['error'] = -7
         before_fail = self.check.shim_mmap_failed()
         try:
@@ -120,6 +129,8 @@ class Run(object):
                 return None
             raise Violation('C29.2', 'ffi.callback() raised MemoryError although no mmap failure was injected')
         e.cb = cb
+        e.state['fn'] = fn
+        e.state['flavour'] = flavour
         e.addr = int(self.iffi.cast('uintptr_t', cb))
         owner = self.addrs.get(e.addr)
         if owner is not None:
@@ -151,6 +162,40 @@ class Run(object):
             self.out.fault('callback_body_raises_armed')
         return e
 
+    def clone(self, src):
+        """another callback on the same Python function, ctype and error value as 'src'"""
+        fn = src.state.get('fn')
+        if fn is None:
+            return None
+        e = Entry()
+        e.serial, e.sig, e.raises, e.state = src.serial, src.sig, src.raises, src.state
+        ffi = self.mffi if (src.sig == 's_i' or src.state.get('flavour') == 'module') else self.iffi
+        kw = {}
+        if e.raises and e.sig != 's_i':
+            kw['error'] = -7
+        try:
+            cb = ffi.callback(SIGS[e.sig], fn, **kw)
+        except MemoryError:
+            return None
+        e.cb = cb
+        e.addr = int(self.iffi.cast('uintptr_t', cb))
+        owner = self.addrs.get(e.addr)
+        if owner is not None:
+            raise Violation('C29.1', 'a new callback got address %#x which still belongs to live callback #%d'
+                            % (e.addr, owner))
+        self.serial += 1
+        key = self.serial            # bookkeeping key only; the function's own serial stays src.serial
+        self.addrs[e.addr] = key
+        addrs, dead, addr, wrs = self.addrs, self.dead_addrs, e.addr, self.wrs
+
+        def gone(_):
+            wrs.pop(key, None)
+            if addrs.get(addr) == key:
+                del addrs[addr]
+                dead.add(addr)
+        wrs[key] = weakref.ref(cb, gone)
+        return e
+
     # ---- calling ----
     def call(self, e, via, x):
         st = e.state
@@ -173,6 +218,15 @@ class Run(object):
         elif sig == 'h_c':
             args = (bytes([65 + x % 26]),)
             got = lib.call_h_c(e.cb, *args) if via == 'C' else e.cb(*args)
+        elif sig == 's_i':
+            args = (x % 1000,)
+            if via == 'C':
+                v = lib.call_s_i(e.cb, *args)
+                b = ((v + 20000) % 100000) - 20000
+                got = ((v - b) // 100000, b)
+            else:
+                r = e.cb(*args)
+                got = (r.a, r.b)
         else:
             p = self.iffi.new('int *', x % 1000)
             if via == 'C':
@@ -223,6 +277,13 @@ class Run(object):
             e = self.create(op[1], op[2], raises=op[3], cyc=op[4])
             if e is not None:
                 self.slots.append(e)
+        elif name == 'clone':
+            if self.slots:
+                src = self.slots[op[1] % len(self.slots)]
+                e = self.clone(src)
+                if e is not None:
+                    self.slots.append(e)
+                    self.out.probe('two_callbacks_share_one_function')
         elif name == 'call':
             if self.slots:
                 self.call(self.slots[op[1] % len(self.slots)], op[2], op[3])
@@ -260,6 +321,15 @@ class Run(object):
             else:
                 self.out.unspec('variadic_callback_accepted')
                 del cb
+            for bad in ((SIGS['i_i'], 42, {}), (SIGS['i_i'], (lambda x: x), {'error': 'notanint'}),
+                        (SIGS['h_c'], (lambda c: 0), {'error': 10 ** 9})):
+                try:
+                    cb = self.iffi.callback(bad[0], bad[1], **bad[2])
+                except (TypeError, OverflowError):
+                    self.out.fault('creation_rejected_bad_callable_or_error_value')
+                else:
+                    self.out.unspec('bad_callback_arguments_accepted')
+                    del cb
             # the free list must be intact: the next two callbacks are distinct and work
             for _ in range(2):
                 e = self.create('i_i', 'inline')
@@ -372,15 +442,15 @@ class C29(core.Check):
             ops.append(['bulkdrop', rng.u64(), 0.5])
             ops.append(['bulk', 14000, rng.choice(SIGNAMES), 'module'])
         for _ in range(rng.randint(5, 80)):
-            name = rng.weighted([('create', 25), ('call', 20), ('drop', 18), ('bulk', 4), ('bulkdrop', 4),
+            name = rng.weighted([('create', 25), ('clone', 5), ('call', 20), ('drop', 18), ('bulk', 4), ('bulkdrop', 4),
                                  ('failcreate', 4), ('mmapfail', 2), ('collect', 6), ('gremlin', 2)])
             if name == 'create':
                 ops.append(['create', rng.choice(SIGNAMES), rng.choice(['module', 'inline']),
                             rng.chance(0.1), rng.chance(0.2)])
             elif name == 'call':
                 ops.append(['call', rng.below(100000), rng.choice(['C', 'cdata']), rng.below(100000)])
-            elif name == 'drop':
-                ops.append(['drop', rng.below(100000)])
+            elif name in ('drop', 'clone'):
+                ops.append([name, rng.below(100000)])
             elif name == 'bulk':
                 n = rng.choice([500, 1500, 3000, 5000]) if big else rng.choice([10, 80, 200])
                 ops.append(['bulk', n, rng.choice(SIGNAMES), rng.choice(['module', 'inline'])])
